@@ -80,7 +80,8 @@ def ir_rules(run, u, r_static, r_lookup, r_copy, r_access, r_table=None):
                 key_c = _strip_deref(key_c)
                 key_r = _strip_deref(key_r)
                 kinds = (vptr.table_kind(d[0]), vptr.table_kind(rd[0]) if rd else None)
-                same_pol = rd is not None and d[0].rsplit("::", 1)[0].split("<", 1)[1][:len(P)] == P
+                owner_t = d[0].rsplit("::", 1)[0]
+                same_pol = rd is not None and "<" in owner_t and owner_t.split("<", 1)[1][:len(P)] == P      # a table that is not a member of a class template keyed by P is shared by all policies
                 ok = rd is not None and key_c == key_r and kinds == (("indirect" if indirect else "direct"), "direct") and same_pol
                 run.instance(r_lookup, "%s: dynamic route reads %s[%s]" % (short, d[0].split("::")[-1], sym.show(key_c)[:100] if key_c else "?"), ins.where(), ok=ok)
                 if not ok:
@@ -297,6 +298,16 @@ def check(run):
     src, _ = witness.call_matrix(["p_ind", "release", "p_map", "p_nohash"], ["r"], witness.update_block(["p_ind", "release", "p_map", "p_nohash"]))
     ast = astq.Ast(common.ast_json(run, src, "c09_ast", funcs="publish_vptrs|class_info::|generic_compiler::class_::|install_gv|decode_dispatch_data|_vptr"))
     ast_rules(run, r[4], ast)
+    # publication: every entry of the pointer vector and of the table of addresses is rewritten by every update (a virtual_ptr
+    # built after a later update must see that update's tables)
+    from .. import crules
+    cast_, _ = crules.unit(run, ndebug=True)
+    for x in ("C09-h1", "C09-h2", "C09-h4", "C09-h5"):
+        run.rule(x, "(decided by C05)", floor=0)
+    crules.hash_rules(run, "C09-h1", "C09-h2", r[4], "C09-h4", "C09-h5", cast_)
+    run.violations = [v for v in run.violations if not v["rule"].startswith("C09-h")]
+    for x in ("C09-h1", "C09-h2", "C09-h4", "C09-h5"):
+        del run.rules[x]
     run.assumptions += ["that the table cell holds the right class's v-table pointer is decided by publishing rules (C05-publish, C10-allids) and is a run-time value otherwise",
                         "equality of run-time dispatch results is not observed; methods read a virtual_ptr argument only through _vptr() (C01-walk leaf)"]
     return run.finish(level="other", explanation="IR symbolic summaries of the value stored in the v-table-pointer field by every construction route of the witness matrix "
